@@ -6,8 +6,21 @@ TECHNIQUE = "Lean 4 theorems over an executable simulator model (any policy = de
 
 
 def run(chk: common.Check):
+    # what the task-graph rows print (deadline, release, finished / cancelled) on task graphs whose tasks carry
+    # DIFFERENT deadlines (decomposed deadlines, hand-built graphs): direct-call histories on real TaskGraphs
+    from harness.suites import _taskgraph_common as tg
+
+    tg.run_suite(chk, "C08")
+    rule = chk.rule
     e2e.run_suite(chk, "C08", streams=("regular", "dag", "batch", "regular"))
+    chk.rule = "task-graph getters behind the TASK_GRAPH_* rows: " + (rule or "") + " || end-to-end: " + chk.rule
 
 
 def replay(path) -> int:
-    return e2e.replay("C08", path)
+    import json
+
+    if json.loads(open(path).read()).get("suite") == "sim":
+        return e2e.replay("C08", path)
+    from harness.suites import _taskgraph_common as tg
+
+    return tg.replay("C08", path)
